@@ -1,4 +1,5 @@
 import PyaisVerif.Lemmas.TextRT
+import PyaisVerif.Lemmas.FieldRTAux
 /-!
 # One field: decode, encode, decode again (field part of C08 / C02)
 -/
@@ -50,12 +51,284 @@ def ExactField (env : Env) (E : EnumInfo) (fromRot : List String) (f : Field) (k
       ∃ v kk, toT.lookup (toInt bits) = some v ∧ v.key = some kk ∧ fromT.lookup kk = some (.int (toInt bits))
   | _ => True
 
+/-- finite side condition on the enum tables (decidable), needed in addition to `TablesOk` for the
+re-encoding theorem: the member value an enum table assigns to a raw value fits the raw width again
+(so `int_to_bin` neither raises `OverflowError` nor saturates) and is a fixed point of the table.
+Without it `field_reencode` is false: a width-1 table `0 ↦ C(0), 1 ↦ C(-1)` satisfies `TablesOk`,
+but encoding `C(-1)` raises; a width-2 table `2 ↦ C(7)` re-encodes as `11`, which decodes to the
+row of 3. -/
+def EnumRTOk (env : Env) (E : EnumInfo) : Bool :=
+  E.tables.all fun (n, cls, w) =>
+    match env.convTables.lookup n with
+    | some tbl => (List.range (2 ^ w)).all fun raw =>
+        match tbl.lookup (raw : Int) with
+        | some (.enum _ m) => decide (0 ≤ m) && decide (m.toNat < 2 ^ w) &&
+            (tbl.lookup m == some (.enum cls m))
+        | _ => false
+    | none => false
+
+theorem enumRTOk_spec (env : Env) (E : EnumInfo) (henum : EnumRTOk env E = true)
+    (n cls : String) (w : Nat) (hl : E.tables.lookup n = some (cls, w))
+    (tbl : List (Int × Val)) (htbl : env.convTables.lookup n = some tbl)
+    (raw : Nat) (hraw : raw < 2 ^ w) (c : String) (m : Int)
+    (hcm : tbl.lookup (raw : Int) = some (.enum c m)) :
+    0 ≤ m ∧ m.toNat < 2 ^ w ∧ tbl.lookup m = some (.enum cls m) := by
+  unfold EnumRTOk at henum
+  have h1 := List.all_eq_true.mp henum _ (lookup_mem _ _ _ hl)
+  simp only [htbl] at h1
+  have h2 := List.all_eq_true.mp h1 raw (List.mem_range.mpr hraw)
+  simp only [hcm, Bool.and_eq_true, decide_eq_true_eq, beq_iff_eq] at h2
+  exact ⟨h2.1.1, h2.1.2, h2.2⟩
+
+theorem rotTablesOk_spec (env : Env) (E : EnumInfo) (fromRot : List String)
+    (hrot : RotTablesOk env E fromRot = true) (tn : String) (htn : tn ∈ E.rotTables)
+    (fn : String) (hfn : fn ∈ fromRot) (raw : Int) (hr : -128 ≤ raw ∧ raw ≤ 127) :
+    ∃ toT fromT v kk r, env.convTables.lookup tn = some toT ∧ env.convTables.lookup fn = some fromT ∧
+      toT.lookup raw = some v ∧ v.key = some kk ∧ fromT.lookup kk = some (.int r) ∧
+      -128 ≤ r ∧ r ≤ 127 ∧ toT.lookup r = some v := by
+  unfold RotTablesOk at hrot
+  have h1 := List.all_eq_true.mp (List.all_eq_true.mp hrot _ htn) _ hfn
+  split at h1
+  · rename_i toT fromT htoT hfromT
+    have h2 := List.all_eq_true.mp h1 (raw + 128).toNat (List.mem_range.mpr (by omega))
+    have e : (((raw + 128).toNat : Nat) : Int) - 128 = raw := by omega
+    rw [e] at h2
+    split at h2
+    · rename_i v hv
+      split at h2
+      · rename_i kk hkk
+        split at h2
+        · rename_i r hfr
+          simp only [Bool.and_eq_true, decide_eq_true_eq, beq_iff_eq] at h2
+          exact ⟨toT, fromT, v, kk, r, htoT, hfromT, hv, hkk, hfr, h2.1.1, h2.1.2, h2.2⟩
+        · simp at h2
+      · simp at h2
+    · simp at h2
+  · simp at h1
+
+/-- the part of `encodeField` after the encode-side converter -/
+def encodeCore (f : Field) (v : Val) : Except Err Bits :=
+  match f.dtype with
+    | .int | .bool =>
+      match v with
+      | .int i => intToBin i f.width f.signed
+      | .bool b => intToBin (if b then 1 else 0) f.width f.signed
+      | .enum _ i => intToBin i f.width f.signed
+      | _ => .error .outsideModel
+    | .float =>
+      match v.micro with
+      | some m => intToBin (truncDiv m MICRO) f.width f.signed
+      | Option.none => .error .typeError
+    | .str =>
+      match v with
+      | .str s => strToBin s f.width (!f.varlen)
+      | _ => .error .outsideModel
+    | .bytes =>
+      match v with
+      | .bytes bs => .ok (if bs.isEmpty then zeros f.width else ofBytes bs)
+      | _ => .error .outsideModel
+
+theorem encodeField_of (env : Env) (f : Field) (v v' : Val) (b : Bits)
+    (h1 : applyConv env f.fromConv v = .ok v') (h2 : encodeCore f v' = .ok b) :
+    encodeField env f v = .ok (b.take f.width) := by
+  unfold encodeField
+  rw [h1]
+  unfold encodeCore at h2
+  simp only [bind, Except.bind]
+  cases hd : f.dtype <;> simp only [hd] at h2 ⊢ <;> split at h2 <;>
+    first
+    | (simp at h2; done)
+    | (simp only [h2]; done)
+    | (injection h2 with h2; subst h2; rfl)
+    | (rename_i heq; simp only [heq, h2]; done)
+
+theorem applyConv_table (env : Env) (n : String) (v r : Val) (tbl : List (Int × Val)) (i : Int)
+    (h1 : env.convTables.lookup n = some tbl) (h2 : v.key = some i) (h3 : tbl.lookup i = some r) :
+    applyConv env (.table n) v = .ok r := by
+  simp [applyConv, h1, h2, h3]
+
+theorem decodeField_plain (env : Env) (f : Field) (bits : Bits) (ht : f.toConv = .none)
+    (ha : f.attrConv = .none) : decodeField env f bits = .ok (decodeRaw f bits) := by
+  rw [decodeField_of_attr_none _ _ _ ha, ht]; rfl
+
+
+/-! ## packaging -/
+
+theorem reencode_pack (env : Env) (E : EnumInfo) (fromRot : List String) (f : Field) (k : Kind)
+    (bits : Bits) (v : Val) (b : Bits) (hkt : k ≠ .t)
+    (hdec : decodeField env f bits = .ok v) (hv : v ≠ .none)
+    (henc : encodeField env f v = .ok b) (hbl : b.length = f.width)
+    (hdec2 : decodeField env f b = .ok v)
+    (hex : ExactField env E fromRot f k bits → b = bits) :
+    ∃ v bits', decodeField env f bits = .ok v ∧ v ≠ .none ∧ encodeField env f v = .ok bits' ∧
+      bits'.length = (if k = .t then 6 * (f.width / 6) else f.width) ∧
+      (∀ pad, k = .t → decodeField env f (bits' ++ zeros pad) = .ok v) ∧
+      (k ≠ .t → decodeField env f bits' = .ok v) ∧
+      (ExactField env E fromRot f k bits → bits' = bits.take bits'.length) := by
+  refine ⟨v, b, hdec, hv, henc, by rw [if_neg hkt]; exact hbl, fun _ h => absurd h hkt,
+    fun _ => hdec2, ?_⟩
+  intro h
+  rw [hex h, List.take_length]
+
+theorem reencode_same (env : Env) (E : EnumInfo) (fromRot : List String) (f : Field) (k : Kind)
+    (bits : Bits) (v : Val) (hkt : k ≠ .t) (hlen : bits.length = f.width)
+    (hdec : decodeField env f bits = .ok v) (hv : v ≠ .none)
+    (henc : encodeField env f v = .ok bits) :
+    ∃ v bits', decodeField env f bits = .ok v ∧ v ≠ .none ∧ encodeField env f v = .ok bits' ∧
+      bits'.length = (if k = .t then 6 * (f.width / 6) else f.width) ∧
+      (∀ pad, k = .t → decodeField env f (bits' ++ zeros pad) = .ok v) ∧
+      (k ≠ .t → decodeField env f bits' = .ok v) ∧
+      (ExactField env E fromRot f k bits → bits' = bits.take bits'.length) :=
+  reencode_pack env E fromRot f k bits v bits hkt hdec hv henc hlen hdec (fun _ => rfl)
+
+theorem truncDiv_tenth (r : Int) : truncDiv (r * 100000 * ((10 : Nat) : Int)) MICRO = r := by
+  have : r * 100000 * ((10 : Nat) : Int) = r * MICRO := by unfold MICRO; omega
+  rw [this, truncDiv_mul_micro]
+
+/-! ## tabulated converters: enumerations and rate of turn -/
+
+theorem table_reencode (env : Env) (E : EnumInfo) (fromRot : List String)
+    (htab : TablesOk env E = true) (hrot : RotTablesOk env E fromRot = true)
+    (henum : EnumRTOk env E = true) (f : Field) (n : String) (k : Kind)
+    (hk : tableKind E n f = some k) (hfk : fromConvOK E fromRot f k = true)
+    (hdf : ∀ bs, decodeField env f bs = applyConv env (.table n) (decodeRaw f bs))
+    (bits : Bits) (hlen : bits.length = f.width) :
+    k ≠ .t ∧ ∃ v b, decodeField env f bits = .ok v ∧ v ≠ .none ∧ encodeField env f v = .ok b ∧
+      b.length = f.width ∧ decodeField env f b = .ok v ∧
+      (ExactField env E fromRot f k bits → b = bits) := by
+  unfold tableKind at hk
+  split at hk
+  · rename_i cls w hl
+    split at hk
+    · rename_i hc
+      obtain ⟨hww, hd, hs⟩ := hc
+      cases hk
+      subst hww
+      refine ⟨by simp, ?_⟩
+      have hraw : toNat bits < 2 ^ f.width := by rw [← hlen]; exact toNat_lt bits
+      obtain ⟨tbl, c, m, htbl, hcm, hok⟩ := tablesOk_enum env E htab n cls _ hl _ hraw
+      simp only [Bool.and_eq_true, Bool.or_eq_true, Bool.not_eq_true', beq_iff_eq] at hok
+      obtain ⟨⟨hc, hmem⟩, hexm⟩ := hok
+      subst hc
+      obtain ⟨hm0, hmlt, hmm⟩ := enumRTOk_spec env E henum n c _ hl tbl htbl _ hraw c m hcm
+      have hkey : ∀ bs, (decodeRaw f bs).key = some (toNat bs : Int) := by
+        intro bs
+        rw [decodeRaw_key f bs (.inl hd)]
+        simp [rawOf, hs]
+      have hdec : decodeField env f bits = .ok (.enum c m) := by
+        rw [hdf]
+        exact applyConv_table env n _ _ tbl _ htbl (hkey bits) hcm
+      have hconv : ∃ c', applyConv env f.fromConv (.enum c m) = .ok (.enum c' m) := by
+        simp only [fromConvOK] at hfk
+        split at hfk
+        · rename_i h
+          rw [h]; exact ⟨c, rfl⟩
+        · rename_i n' h
+          split at hfk
+          · rename_i c2 w2 hl2
+            simp only [Bool.and_eq_true, beq_iff_eq] at hfk
+            obtain ⟨hc2, hw2⟩ := hfk
+            subst hc2 hw2
+            obtain ⟨tbl', c', m', htbl', hcm', hok'⟩ :=
+              tablesOk_enum env E htab n' c2 _ hl2 m.toNat hmlt
+            rw [Int.toNat_of_nonneg hm0] at hcm' hok'
+            simp only [Bool.and_eq_true, Bool.or_eq_true, Bool.not_eq_true', beq_iff_eq] at hok'
+            have hm' : m' = m := by
+              rcases hok'.2 with h' | h'
+              · rw [hmem] at h'; cases h'
+              · exact h'
+            subst hm'
+            rw [h]
+            exact ⟨c', applyConv_table env n' _ _ tbl' m' htbl' rfl hcm'⟩
+          · simp at hfk
+        · simp at hfk
+      obtain ⟨c', hconv⟩ := hconv
+      have hmlt' : m < 2 ^ f.width := by
+        have : ((m.toNat : Nat) : Int) < ((2 ^ f.width : Nat) : Int) := by exact_mod_cast hmlt
+        rw [Int.toNat_of_nonneg hm0] at this
+        simpa using this
+      have hcore : encodeCore f (.enum c' m) = .ok (ofNat f.width m.toNat) := by
+        simp only [encodeCore, hd, hs]
+        exact intToBin_unsigned m _ hm0 hmlt'
+      have henc := encodeField_of env f _ _ _ hconv hcore
+      rw [List.take_of_length_le (by simp)] at henc
+      have hdec2 : decodeField env f (ofNat f.width m.toNat) = .ok (.enum c m) := by
+        rw [hdf]
+        refine applyConv_table env n _ _ tbl _ htbl (hkey _) ?_
+        rw [toNat_ofNat, Nat.mod_eq_of_lt hmlt, Int.toNat_of_nonneg hm0]
+        exact hmm
+      refine ⟨.enum c m, ofNat f.width m.toNat, hdec, by simp, henc, by simp, hdec2, ?_⟩
+      intro hex
+      have hex' : (E.membersOf c).contains (toNat bits : Int) = true := hex
+      have hmr : m = (toNat bits : Int) := by
+        rcases hexm with h' | h'
+        · rw [hex'] at h'; cases h'
+        · exact h'
+      rw [hmr, Int.toNat_natCast, ← hlen, ofNat_toNat]
+    · simp at hk
+  · rename_i hl
+    split at hk
+    · rename_i hc
+      obtain ⟨hc, hd, hs, hw8⟩ := hc
+      cases hk
+      refine ⟨by simp, ?_⟩
+      have htn : n ∈ E.rotTables := by simpa using hc
+      simp only [fromConvOK] at hfk
+      split at hfk
+      · rename_i fn hfn
+        have hfnm : fn ∈ fromRot := by simpa using hfk
+        have hr := toInt_range8 bits (hlen.trans hw8)
+        obtain ⟨toT, fromT, v, kk, r, htoT, hfromT, hv, hkk, hfr, hr1, hr2, hrv⟩ :=
+          rotTablesOk_spec env E fromRot hrot n htn fn hfnm _ hr
+        have hkey : ∀ bs, (decodeRaw f bs).key = some (toInt bs) := by
+          intro bs
+          rw [decodeRaw_key f bs (.inr hd)]
+          simp [rawOf, hs]
+        have hdec : decodeField env f bits = .ok v := by
+          rw [hdf]
+          exact applyConv_table env n _ _ toT _ htoT (hkey bits) hv
+        have hvn : v ≠ .none := by
+          intro h
+          rw [h] at hkk
+          simp [Val.key] at hkk
+        have hconv : applyConv env f.fromConv v = .ok (.int r) := by
+          rw [hfn]
+          exact applyConv_table env fn _ _ fromT kk hfromT hkk hfr
+        have h128 : (2 : Int) ^ (8 - 1) = 128 := by decide
+        have hrr : -(2 : Int) ^ (8 - 1) ≤ r ∧ r < 2 ^ (8 - 1) := by
+          rw [h128]; omega
+        have hcore : encodeCore f (.int r) = .ok (ofInt 8 r) := by
+          simp only [encodeCore, hd, hs, hw8, Val.micro, truncDiv_mul_micro]
+          exact intToBin_signed r 8 (by decide) hrr
+        have henc := encodeField_of env f _ _ _ hconv hcore
+        rw [List.take_of_length_le (by simp [ofInt, hw8])] at henc
+        have hdec2 : decodeField env f (ofInt 8 r) = .ok v := by
+          rw [hdf]
+          refine applyConv_table env n _ _ toT _ htoT (hkey _) ?_
+          rw [toInt_ofInt 8 r (by decide) hrr]
+          exact hrv
+        refine ⟨v, ofInt 8 r, hdec, hvn, henc, by simp [ofInt, hw8], hdec2, ?_⟩
+        intro hex
+        obtain ⟨v', kk', h1, h2, h3⟩ := hex n htn fn hfnm toT fromT htoT hfromT
+        rw [hv] at h1
+        cases h1
+        rw [hkk] at h2
+        cases h2
+        rw [hfr] at h3
+        cases h3
+        have := ofInt_toInt bits
+        rw [hlen.trans hw8] at this
+        exact this
+      · simp at hfk
+    · simp at hk
+
 /-- **Fixed-width field, completely present.** Decoding yields a value (never `None`); encoding it
 yields exactly `width` bits (for text of a width that is not a whole number of characters:
 `6·⌊width/6⌋` bits); decoding those yields the same value; and the bits are the received ones unless
 the field was normalised. -/
 theorem field_reencode (env : Env) (E : EnumInfo) (fromRot : List String)
     (htab : TablesOk env E = true) (hrot : RotTablesOk env E fromRot = true)
+    (henum : EnumRTOk env E = true)
     (f : Field) (k : Kind) (hk : kindOf E f = some k) (hfk : fromConvOK E fromRot f k = true)
     (hb1 : f.dtype = .bool → f.width = 1) (hvar : f.varlen = false)
     (bits : Bits) (hlen : bits.length = f.width) (hw : 0 < f.width)
@@ -65,7 +338,205 @@ theorem field_reencode (env : Env) (E : EnumInfo) (fromRot : List String)
       (∀ pad, k = .t → decodeField env f (bits' ++ zeros pad) = .ok v) ∧
       (k ≠ .t → decodeField env f bits' = .ok v) ∧
       (ExactField env E fromRot f k bits → bits' = bits.take bits'.length) := by
-  sorry
+  have hwl : 0 < bits.length := by omega
+  have htake : bits.take f.width = bits := by rw [← hlen, List.take_length]
+  have hk0 := hk
+  unfold kindOf at hk
+  split at hk
+  case h_1 hd hs ht ha =>
+    cases hk
+    have hdec : decodeField env f bits = .ok (.int (toNat bits)) := by
+      rw [decodeField_plain _ _ _ ht ha, decodeRaw_unsigned _ _ hs, hd]
+    simp only [fromConvOK, Bool.or_eq_true, beq_iff_eq] at hfk
+    have hconv : applyConv env f.fromConv (.int (toNat bits)) = .ok (.int (toNat bits)) := by
+      rcases hfk with h | h <;> rw [h] <;> rfl
+    have hcore : encodeCore f (.int (toNat bits)) = .ok bits := by
+      simp only [encodeCore, hd, hs, ← hlen]
+      exact intToBin_toNat bits
+    have henc := encodeField_of env f _ _ _ hconv hcore
+    rw [htake] at henc
+    exact reencode_same env E fromRot f _ bits _ (by simp) hlen hdec (by simp) henc
+  case h_2 hd hs ht ha =>
+    cases hk
+    have hdec : decodeField env f bits = .ok (.flt ((toNat bits : Int) * MICRO)) := by
+      rw [decodeField_plain _ _ _ ht ha, decodeRaw_unsigned _ _ hs, hd]
+    simp only [fromConvOK, beq_iff_eq] at hfk
+    have hconv : applyConv env f.fromConv (.flt ((toNat bits : Int) * MICRO))
+        = .ok (.flt ((toNat bits : Int) * MICRO)) := by rw [hfk]; rfl
+    have hcore : encodeCore f (.flt ((toNat bits : Int) * MICRO)) = .ok bits := by
+      simp only [encodeCore, hd, hs, Val.micro, truncDiv_mul_micro, ← hlen]
+      exact intToBin_toNat bits
+    have henc := encodeField_of env f _ _ _ hconv hcore
+    rw [htake] at henc
+    exact reencode_same env E fromRot f _ bits _ (by simp) hlen hdec (by simp) henc
+  case h_3 hd hs ht ha =>
+    cases hk
+    have hw1 := hb1 hd
+    have hdec : decodeField env f bits = .ok (.bool (toNat bits != 0)) := by
+      rw [decodeField_plain _ _ _ ht ha, decodeRaw_unsigned _ _ hs, hd]
+    simp only [fromConvOK, beq_iff_eq] at hfk
+    have hconv : applyConv env f.fromConv (.bool (toNat bits != 0))
+        = .ok (.bool (toNat bits != 0)) := by rw [hfk]; rfl
+    have hcore : encodeCore f (.bool (toNat bits != 0)) = .ok bits := by
+      simp only [encodeCore, hd, hs, hw1]
+      rw [hw1] at hlen
+      match bits, hlen with
+      | [true], _ => rfl
+      | [false], _ => rfl
+    have henc := encodeField_of env f _ _ _ hconv hcore
+    rw [htake] at henc
+    exact reencode_same env E fromRot f _ bits _ (by simp) hlen hdec (by simp) henc
+  case h_4 hd hs ht ha =>
+    cases hk
+    have hdec : ∀ bs, decodeField env f bs = .ok (.str (decodeAscii6 bs)) := by
+      intro bs
+      rw [decodeField_plain _ _ _ ht ha, decodeRaw_unsigned _ _ hs, hd]
+    simp only [fromConvOK, beq_iff_eq] at hfk
+    have hcanon := decodeAscii6_canon bits
+    have hslen : (decodeAscii6 bits).length ≤ f.width / 6 := by
+      have := decodeAscii6_length_pad bits (hpad rfl)
+      rwa [hlen] at this
+    obtain ⟨b, hb, hbl, _⟩ := strToBin_canon_padded _ hcanon f.width hslen 0
+    have hconv : applyConv env f.fromConv (.str (decodeAscii6 bits))
+        = .ok (.str (decodeAscii6 bits)) := by rw [hfk]; rfl
+    have hcore : encodeCore f (.str (decodeAscii6 bits)) = .ok b := by
+      simp only [encodeCore, hd, hvar, Bool.not_false]
+      exact hb
+    have henc := encodeField_of env f _ _ _ hconv hcore
+    rw [List.take_of_length_le (by omega)] at henc
+    refine ⟨_, b, hdec bits, by simp, henc, by simp [hbl], ?_, fun h => absurd rfl h, ?_⟩
+    · intro pad _
+      obtain ⟨b', hb', _, hd'⟩ := strToBin_canon_padded _ hcanon f.width hslen pad
+      rw [hb] at hb'
+      cases hb'
+      rw [hdec, hd']
+    · intro hex
+      obtain ⟨b0, h0, hb0⟩ : CanonWire bits := hex
+      rw [hlen, hb] at h0
+      cases h0
+      rw [hb0, List.take_length]
+  case h_5 hd hs ht ha =>
+    cases hk
+    have hdec : decodeField env f bits = .ok (.bytes (toBytes bits)) := by
+      rw [decodeField_plain _ _ _ ht ha, decodeRaw_unsigned _ _ hs, hd]
+    simp only [fromConvOK, beq_iff_eq] at hfk
+    have hconv : applyConv env f.fromConv (.bytes (toBytes bits))
+        = .ok (.bytes (toBytes bits)) := by rw [hfk]; rfl
+    have hne : bits ≠ [] := by intro h; rw [h] at hwl; simp at hwl
+    have hcore : encodeCore f (.bytes (toBytes bits)) = .ok (padRight8 bits) := by
+      simp only [encodeCore, hd, List.isEmpty_iff, toBytes_ne_nil bits hne, if_false,
+        ofBytes_toBytes]
+    have henc := encodeField_of env f _ _ _ hconv hcore
+    have ht8 : (padRight8 bits).take f.width = bits := by
+      unfold padRight8
+      exact List.take_left' hlen
+    rw [ht8] at henc
+    exact reencode_same env E fromRot f _ bits _ (by simp) hlen hdec (by simp) henc
+  case h_6 hd hs ht ha =>
+    cases hk
+    obtain ⟨v, hdec, hchk⟩ := decodeField_spec env E htab f .U1
+      hk0 bits hlen hw (fun h => by cases h)
+    simp only [check, beq_iff_eq] at hchk
+    subst hchk
+    simp only [fromConvOK, beq_iff_eq] at hfk
+    have hconv : applyConv env f.fromConv (.flt ((toNat bits : Int) * 100000))
+        = .ok (.flt ((toNat bits : Int) * 100000 * ((10 : Nat) : Int))) := by rw [hfk]; rfl
+    have hcore : encodeCore f (.flt ((toNat bits : Int) * 100000 * ((10 : Nat) : Int))) = .ok bits := by
+      simp only [encodeCore, hd, hs, Val.micro, truncDiv_tenth, ← hlen]
+      exact intToBin_toNat bits
+    have henc := encodeField_of env f _ _ _ hconv hcore
+    rw [htake] at henc
+    exact reencode_same env E fromRot f _ bits _ (by simp) hlen hdec (by simp) henc
+  case h_7 hd hs ht ha =>
+    cases hk
+    obtain ⟨v, hdec, hchk⟩ := decodeField_spec env E htab f .I1
+      hk0 bits hlen hw (fun h => by cases h)
+    simp only [check, beq_iff_eq] at hchk
+    subst hchk
+    simp only [fromConvOK, beq_iff_eq] at hfk
+    have hconv : applyConv env f.fromConv (.flt (toInt bits * 100000))
+        = .ok (.flt (toInt bits * 100000 * ((10 : Nat) : Int))) := by rw [hfk]; rfl
+    have hcore : encodeCore f (.flt (toInt bits * 100000 * ((10 : Nat) : Int))) = .ok bits := by
+      simp only [encodeCore, hd, hs, Val.micro, truncDiv_tenth, ← hlen]
+      exact intToBin_toInt bits hwl
+    have henc := encodeField_of env f _ _ _ hconv hcore
+    rw [htake] at henc
+    exact reencode_same env E fromRot f _ bits _ (by simp) hlen hdec (by simp) henc
+  case h_8 hd hs ht ha =>
+    cases hk
+    obtain ⟨v, hdec, hchk⟩ := decodeField_spec env E htab f .I4
+      hk0 bits hlen hw (fun h => by cases h)
+    simp only [check, beq_iff_eq] at hchk
+    subst hchk
+    simp only [fromConvOK, beq_iff_eq] at hfk
+    have hconv : applyConv env f.fromConv (.flt (roundHalfEvenDiv (toInt bits * 1000000) 600000))
+        = .ok (.int (toInt bits)) := by
+      rw [hfk]
+      exact congrArg (fun x => Except.ok (Val.int x)) (rt_I4 (toInt bits))
+    have hcore : encodeCore f (.int (toInt bits)) = .ok bits := by
+      simp only [encodeCore, hd, hs, Val.micro, truncDiv_mul_micro, ← hlen]
+      exact intToBin_toInt bits hwl
+    have henc := encodeField_of env f _ _ _ hconv hcore
+    rw [htake] at henc
+    exact reencode_same env E fromRot f _ bits _ (by simp) hlen hdec (by simp) henc
+  case h_9 hd hs ht ha =>
+    cases hk
+    obtain ⟨v, hdec, hchk⟩ := decodeField_spec env E htab f .I600
+      hk0 bits hlen hw (fun h => by cases h)
+    simp only [check, beq_iff_eq] at hchk
+    subst hchk
+    simp only [fromConvOK, beq_iff_eq] at hfk
+    have hconv : applyConv env f.fromConv (.flt (roundHalfEvenDiv (toInt bits * 1000000) 600))
+        = .ok (.int (toInt bits)) := by
+      rw [hfk]
+      exact congrArg (fun x => Except.ok (Val.int x)) (rt_I600 (toInt bits))
+    have hcore : encodeCore f (.int (toInt bits)) = .ok bits := by
+      simp only [encodeCore, hd, hs, Val.micro, truncDiv_mul_micro, ← hlen]
+      exact intToBin_toInt bits hwl
+    have henc := encodeField_of env f _ _ _ hconv hcore
+    rw [htake] at henc
+    exact reencode_same env E fromRot f _ bits _ (by simp) hlen hdec (by simp) henc
+  case h_10 n ht ha =>
+    obtain ⟨hkt, v, b, h1, h2, h3, h4, h5, h6⟩ := table_reencode env E fromRot htab hrot henum f n k
+      hk hfk (fun bs => by rw [decodeField_of_attr_none _ _ _ ha, ht]) bits hlen
+    exact reencode_pack env E fromRot f k bits v b hkt h1 h2 h3 h4 h5 h6
+  case h_11 n ht ha =>
+    obtain ⟨hkt, v, b, h1, h2, h3, h4, h5, h6⟩ := table_reencode env E fromRot htab hrot henum f n k
+      hk hfk (fun bs => by rw [decodeField_of_to_none _ _ _ ht, ha]) bits hlen
+    exact reencode_pack env E fromRot f k bits v b hkt h1 h2 h3 h4 h5 h6
+  case h_12 => simp at hk
+
+theorem tableKind_not_td (E : EnumInfo) (n : String) (f : Field) (k : Kind)
+    (hk : tableKind E n f = some k) : k ≠ .t ∧ k ≠ .d := by
+  unfold tableKind at hk
+  split at hk
+  · split at hk
+    · cases hk; simp
+    · simp at hk
+  · split at hk
+    · cases hk; simp
+    · simp at hk
+
+/-- what `kindOf` says about text and binary fields -/
+theorem kindOf_td (E : EnumInfo) (f : Field) (k : Kind) (hk : kindOf E f = some k)
+    (hkind : k = .t ∨ k = .d) :
+    f.signed = false ∧ f.toConv = .none ∧ f.attrConv = .none ∧
+      (k = .t → f.dtype = .str) ∧ (k = .d → f.dtype = .bytes) := by
+  unfold kindOf at hk
+  split at hk
+  case h_4 hd hs ht ha => exact ⟨hs, ht, ha, fun _ => hd, fun h => (by cases hk; cases h)⟩
+  case h_5 hd hs ht ha => exact ⟨hs, ht, ha, fun h => (by cases hk; cases h), fun _ => hd⟩
+  case h_10 n ht ha =>
+    have := tableKind_not_td E n f k hk
+    rcases hkind with h | h
+    · exact absurd h this.1
+    · exact absurd h this.2
+  case h_11 n ht ha =>
+    have := tableKind_not_td E n f k hk
+    rcases hkind with h | h
+    · exact absurd h this.1
+    · exact absurd h this.2
+  all_goals (cases hk <;> simp at hkind)
 
 /-- **Variable-length tail** (binary data of types 6, 8, 17; text of types 12, 14), partially or
 completely present: decoding yields a value; encoding it yields at most `width` bits; unless the
@@ -81,6 +552,56 @@ theorem varlen_reencode (env : Env) (E : EnumInfo)
       (v ≠ .str [] → bits' ≠ [] ∧ decodeField env f bits' = .ok v) ∧
       (v = .str [] → bits' = []) ∧
       (k = .d → bits.length % 8 = 0 → bits' = bits) := by
-  sorry
+  obtain ⟨hs, ht, ha, hdt, hdd⟩ := kindOf_td E f k hk hkind
+  have hne : bits ≠ [] := by intro h; rw [h] at hlen; simp at hlen
+  rcases hkind with rfl | rfl
+  · have hd := hdt rfl
+    have hdec : ∀ bs, decodeField env f bs = .ok (.str (decodeAscii6 bs)) := by
+      intro bs
+      rw [decodeField_plain _ _ _ ht ha, decodeRaw_unsigned _ _ hs, hd]
+    have hcanon := decodeAscii6_canon bits
+    have hslen : (decodeAscii6 bits).length ≤ f.width / 6 :=
+      Nat.le_trans (decodeAscii6_length_pad bits (hpad rfl)) (Nat.div_le_div_right hlen.2)
+    obtain ⟨b, hb, hbl, hb0⟩ := strToBin_canon _ hcanon f.width hslen
+    have hconv : applyConv env f.fromConv (.str (decodeAscii6 bits))
+        = .ok (.str (decodeAscii6 bits)) := by rw [hfc]; rfl
+    have hcore : encodeCore f (.str (decodeAscii6 bits)) = .ok b := by
+      simp only [encodeCore, hd, hvar, Bool.not_true]
+      exact hb
+    have henc := encodeField_of env f _ _ _ hconv hcore
+    rw [List.take_of_length_le (by omega)] at henc
+    refine ⟨_, b, hdec bits, by simp, henc, by omega, ?_, ?_, fun h => (by cases h)⟩
+    · intro hv
+      have hsne : decodeAscii6 bits ≠ [] := fun h => hv (by rw [h])
+      refine ⟨?_, ?_⟩
+      · intro h
+        rw [h, List.length_nil] at hbl
+        exact hsne (List.eq_nil_of_length_eq_zero (by omega))
+      · rw [hdec, hb0 hsne]
+    · intro hv
+      have hs0 : decodeAscii6 bits = [] := by simpa using hv
+      rw [hs0, List.length_nil] at hbl
+      exact List.eq_nil_of_length_eq_zero (by omega)
+  · have hd := hdd rfl
+    have hdec : ∀ bs, decodeField env f bs = .ok (.bytes (toBytes bs)) := by
+      intro bs
+      rw [decodeField_plain _ _ _ ht ha, decodeRaw_unsigned _ _ hs, hd]
+    have hconv : applyConv env f.fromConv (.bytes (toBytes bits))
+        = .ok (.bytes (toBytes bits)) := by rw [hfc]; rfl
+    have hcore : encodeCore f (.bytes (toBytes bits)) = .ok (padRight8 bits) := by
+      simp only [encodeCore, hd, List.isEmpty_iff, toBytes_ne_nil bits hne, if_false,
+        ofBytes_toBytes]
+    have henc := encodeField_of env f _ _ _ hconv hcore
+    have hpl := padRight8_length_le bits f.width hlen.2 (hw8 rfl)
+    rw [List.take_of_length_le hpl] at henc
+    refine ⟨_, padRight8 bits, hdec bits, by simp, henc, hpl, ?_, fun h => (by cases h), ?_⟩
+    · intro _
+      refine ⟨?_, ?_⟩
+      · unfold padRight8
+        intro h
+        exact hne (List.append_eq_nil_iff.mp h).1
+      · rw [hdec, toBytes_padRight8]
+    · intro _ h8
+      exact padRight8_of_mod bits h8
 
 end Model
